@@ -24,7 +24,12 @@ def run(lines, out, args):
             if f[0] == "reset":
                 serial += 1
                 ifs, names, descs = {0: Interface}, [], {}
-            elif f[0] == "iface":
+            elif f[0] in ("iface", "twin"):
+                twin_of = None
+                if f[0] == "twin":
+                    # same __name__ and __module__ as interface f[2] (a re-loaded definition): equal, but another object
+                    twin_of = ifs[int(f[2])]
+                    f = ["iface", f[1], "-"] + f[3:]
                 attrs = {}
                 for e in lst(f[3]):
                     n, d = e.split(":")
@@ -33,7 +38,7 @@ def run(lines, out, args):
                     attrs[n] = a
                     if n not in names:
                         names.append(n)
-                I = InterfaceClass("I%d_%s" % (serial, f[1]), tuple(ifs[int(b)] for b in lst(f[2])) or (Interface,), attrs, __module__="zi.gen")
+                I = InterfaceClass(twin_of.__name__ if twin_of is not None else "I%d_%s" % (serial, f[1]), tuple(ifs[int(b)] for b in lst(f[2])) or (Interface,), attrs, __module__="zi.gen")
                 for e in lst(f[4]):
                     t, v = e.split(":")
                     I.setTaggedValue(t, int(v))
